@@ -9,7 +9,7 @@ use std::time::Duration;
 
 pub static PROP: Prop = Prop {
     id: "C05",
-    rule: "cases: (a) exhaustive: every sequence of length <= L over a 22-symbol alphabet of token classes {number, string, strings spelling `,` and `:`, bool, name (a name before `(` is a function name), ( ) [ ] { } , ; ? : prefix-only `!`, infix-only `*`, prefix+infix `-`, postfix `++`, `not`, word infix `in`}, rendered with single blanks (L = 5 quick, 6 thorough); (b) corruptions: a valid program from the flat generator with 1-3 edits at token level (delete / insert / replace / swap a token, truncate) or at character level (delete a character, insert a structural character, unbalance a quote, splice `e` `.` into a number); (c) number-shaped text (1-34 digits, optional fraction, then junk from the number alphabet: e9, E5, e+3, .5, .., .1.2 ...) embedded in a program; a non-blank `whitespace` character (form feed, vertical tab, NBSP, U+2003, NEL, BOM) between a function name and `(` plus one more structural edit; (d) in fresh child processes: word operators registered at run time (over, pct, xor ...), the same short token sequences around them parsed before and after the registration, each judged against the operator table in force. Oracle (one-directional): if a lenient, nondeterministic recogniser of the documented grammar (optional `;` after any statement, optional trailing comma in list and map, any number of postfix operators, `not` as prefix or as negation marker) finds NO reading, parse_expression must return Err; a lexical error (unterminated string, malformed number) counts as no reading. Nothing is asserted when the recogniser accepts. Non-trivial: the recogniser rejects the input and it is a near-miss (some single-token deletion is accepted, or it came from a valid program by <= 3 edits); distinct by token-class sequence.",
+    rule: "cases: (a) exhaustive: every sequence of length <= L over a 23-symbol alphabet of token classes {number, string, a multi-byte string, a bare multi-byte name character, strings spelling `,` and `:`, bool, name (a name before `(` is a function name), ( ) [ ] { } , ; ? : prefix-only `!`, infix-only `*`, prefix+infix `-`, postfix `++`, `not`, word infix `in`}, rendered with single blanks (L = 5 quick, 6 thorough); (b) corruptions: a valid program from the flat generator with 1-3 edits at token level (delete / insert / replace / swap a token, truncate) or at character level (delete a character, insert a structural character, unbalance a quote, splice `e` `.` into a number); (c) number-shaped text (1-34 digits, optional fraction, then junk from the number alphabet: e9, E5, e+3, .5, .., .1.2 ...) embedded in a program; a non-blank `whitespace` character (form feed, vertical tab, NBSP, U+2003, NEL, BOM) between a function name and `(` plus one more structural edit; (d) in fresh child processes: word operators registered at run time (over, pct, xor ... and spellings that are no identifiers: is-not, ~=, @@, не), the same short token sequences around them parsed before and after the registration, each judged against the operator table in force. A quarter of the rejected inputs are also run through execute() with a context that binds a variable under the input's own text (it must be an error there too). Oracle (one-directional): if a lenient, nondeterministic recogniser of the documented grammar (optional `;` after any statement, optional trailing comma in list and map, any number of postfix operators, `not` as prefix or as negation marker) finds NO reading, parse_expression must return Err; a lexical error (unterminated string, malformed number) counts as no reading. Nothing is asserted when the recogniser accepts. Non-trivial: the recogniser rejects the input and it is a near-miss (some single-token deletion is accepted, or it came from a valid program by <= 3 edits); distinct by token-class sequence.",
     assumptions: &[
         "the recogniser reads the grammar as leniently as the statement allows, so a rejection means no reading exists; a trailing comma in a call is NOT among the stated leniencies and is treated as malformed",
         "inputs with more than 62 tokens are outside the recogniser's range and assert nothing",
@@ -32,7 +32,8 @@ fn budget(t: Tier) -> Budget {
     }
 }
 
-const ALPHABET: [(TK, &str); 22] = [
+const ALPHABET: [(TK, &str); 23] = [
+    (TK::Str, "'é'"),
     // strings whose text spells a separator: "treating one token as another"
     (TK::Str, "','"),
     (TK::Str, "':'"),
@@ -108,6 +109,24 @@ fn judge(text: &str, toks: Option<&[Tok]>, tab: &OpTable, derived: bool, st: &mu
         (true, false) => st.hist("lenient-reading-exists-engine-rejects"),
         (false, false) => {
             st.hist("rejected-by-both");
+            // "and therefore execute": whatever the context holds - here a variable bound under
+            // the very text - a malformed program is an error there too
+            if (text.len() + text.bytes().map(|b| b as usize).sum::<usize>()) % 4 == 0 {
+                let mut ctx = expression_engine::Context::new();
+                ctx.set_variable(text.trim(), expression_engine::Value::from(1));
+                ctx.set_variable(text, expression_engine::Value::from(2));
+                match guard(|| expression_engine::execute(text, ctx).map_err(|e| e.to_string())) {
+                    Ok(Err(_)) => st.hist("execute-with-context-rejects"),
+                    Ok(Ok(v)) => {
+                        return Err(Failure::new(
+                            "accepted-malformed:execute-with-context",
+                            format!("{:?} is rejected by parse_expression, but execute() with a context that binds a variable of that name returned {:?}", text, v),
+                            json!({"text": text}),
+                        ))
+                    }
+                    Err(p) => return Err(Failure::new("panic", format!("execute {:?}: {}", text, p), json!({"text": text}))),
+                }
+            }
             if let Some(t) = toks {
                 if derived || near_miss(t, tab) {
                     st.nontrivial(&class_key(t));
@@ -241,7 +260,7 @@ fn history_case(src: &mut Src, st: &mut Stats, env: &Env) -> CaseResult {
     let mut names = vec![];
     for i in 0..nops {
         let kind = *src.choose(&["infix", "prefix", "postfix"]);
-        let name = *src.choose(&["over", "pct", "xor", "mod", "nand", "sq"]);
+        let name = *src.choose(&["over", "pct", "xor", "mod", "nand", "sq", "is-not", "~=", "@@", "не"]);
         if names.contains(&name.to_string()) {
             continue;
         }
